@@ -204,7 +204,14 @@ def run(ctx):
     def ext(ty, what):
         return lambda m: dict(fn=what, type=ty, data=mval(m, DATA) & 0xFFFFFFFF)
 
+    def guarded(gen):
+        try:
+            for x in gen:
+                yield x
+        except Inconclusive as e:
+            pending.append(str(e))
     sign_region = {'c27_signed_mantissa': (DATA.e >> 31) == 1}
+    pending = []          # reasons why a part of the run was inconclusive (the run ends with exit 3 unless a violation was found)
     for ty in sorted(T.values()):
         if ty in (T['NULL'], T['STRING']):
             continue
@@ -215,17 +222,37 @@ def run(ctx):
         if ty == T['FRACTION']:
             pre = [(DATA.e & 0xF) < len(FRAC_UNITS)]
         eng = ctx.new_engine(pre=pre)
-        for pc, (kind, val) in eng.explore(lambda: axml.format_value(ty, DATA), keep_pcs=True):
-            ctx.reached(label)
-            if kind == 'exc':
-                ctx.obligation(eng, pc, z3.BoolVal(False), ext(ty, 'format_value'), label=label,
-                               what='format_value raised %r' % val)
-                continue
-            ctx.obligation(eng, pc, obligation_for(ty, DATA, val), ext(ty, 'format_value'), sign_region, label=label,
-                           what='formatted %s value differs from the AOSP meaning' % label)
-            ctx.sample(dict(type=label, marker_string=[p[:1] + (p[2:] if p[0] == 'sym' else p[1:]) for p in parse_markers(val)]))
-        eng.partition_guard()
-
+        try:
+            for pc, (kind, val) in eng.explore(lambda: axml.format_value(ty, DATA), keep_pcs=True):
+                ctx.reached(label)
+                if kind == 'exc':
+                    ctx.obligation(eng, pc, z3.BoolVal(False), ext(ty, 'format_value'), label=label,
+                                   what='format_value raised %r' % val)
+                    continue
+                ctx.obligation(eng, pc, obligation_for(ty, DATA, val), ext(ty, 'format_value'), sign_region, label=label,
+                               what='formatted %s value differs from the AOSP meaning' % label)
+                ctx.sample(dict(type=label, marker_string=[p[:1] + (p[2:] if p[0] == 'sym' else p[1:]) for p in parse_markers(val)]))
+            eng.partition_guard()
+        except Inconclusive as e:
+            # the code did something with the symbolic value that is not modelled: nothing can be proved for this type on this
+            # tree.  Concrete data words are tried instead - a mismatch among them is still a (replayed) violation; without
+            # one the run stays inconclusive (exit 3), never "held".
+            found = 0
+            for w in words + [rnd.getrandbits(32) for _ in range(3000)]:
+                if (ty == 5 and (w & 0xf) > 5) or (ty == 6 and (w & 0xf) > 1):
+                    continue
+                try:
+                    got = axml.format_value(ty, w)
+                    bad = ref_check(ty, w, got)
+                except Exception as e2:
+                    bad = ['raised %r' % (e2,)]
+                if bad and not (w >> 31 and 'c27_signed_mantissa' in ctx.known):
+                    ctx.concrete_violation(dict(fn='format_value', type=ty, data=w), label=label + ' (concrete data words)', what=bad[0])
+                    found += 1
+                    if found >= 3:
+                        break
+            if not found:
+                pending.append(str(e))
     # --- Res_value parsed from 8 symbolic bytes, then formatted (ARSCResStringPoolRef)
     hdr = [fresh_byte('rv%d' % i) for i in range(4)]
     word = le_bytes(DATA, 4)
@@ -238,7 +265,7 @@ def run(ctx):
             f = axml.io.BytesIO(SBytes(hdr + word))
             rv = axml.ARSCResStringPoolRef(f, _Parent())
             return rv.format_value(), rv.get_data(), rv.get_data_type(), f.tell()
-        for pc, (kind, val) in eng.explore(go, keep_pcs=True):
+        for pc, (kind, val) in guarded(eng.explore(go, keep_pcs=True)):
             ctx.reached(label)
             if kind == 'exc':
                 ctx.obligation(eng, pc, z3.BoolVal(False), ext(ty, 'Res_value'), label=label, what='raised %r' % val)
@@ -252,7 +279,7 @@ def run(ctx):
     # --- ARSCParser.get_resource_dimen / get_resource_color on a stub table entry
     P = axml.ARSCParser.__new__(axml.ARSCParser)
     eng = ctx.new_engine(pre=[(DATA.e & 0xF) < 6])
-    for pc, (kind, val) in eng.explore(lambda: P.get_resource_dimen(Ate(DATA)), keep_pcs=True):
+    for pc, (kind, val) in guarded(eng.explore(lambda: P.get_resource_dimen(Ate(DATA)), keep_pcs=True)):
         ctx.reached('get_resource_dimen')
         ok = z3.BoolVal(False)
         if kind == 'ok' and isinstance(val, list) and len(val) == 2 and isinstance(val[1], str):
@@ -266,7 +293,7 @@ def run(ctx):
                        what='dimension resource differs from the AOSP meaning')
     eng.partition_guard()
     eng = ctx.new_engine()
-    for pc, (kind, val) in eng.explore(lambda: P.get_resource_color(Ate(DATA)), keep_pcs=True):
+    for pc, (kind, val) in guarded(eng.explore(lambda: P.get_resource_color(Ate(DATA)), keep_pcs=True)):
         ctx.reached('get_resource_color')
         ok = z3.BoolVal(False)
         if kind == 'ok' and isinstance(val, list) and len(val) == 2 and isinstance(val[1], str):
@@ -276,7 +303,10 @@ def run(ctx):
                 ok = z3.And([parts[1 + i][1] == ((DATA.e >> (24 - 8 * i)) & 0xFF) for i in range(4)])
         ctx.obligation(eng, pc, ok, ext(0x1c, 'get_resource_color'), label='get_resource_color',
                        what='colour resource is not #AARRGGBB of the data word')
-    eng.partition_guard()
+    if not pending:
+        eng.partition_guard()
+    if pending and not getattr(ctx, 'new_violations', 0):
+        raise Inconclusive(pending[0])
 
 
 def concrete(c):
